@@ -26,7 +26,7 @@ KQUICK, KTHOROUGH = 3, 4
 def plan(tier, seed):
     if tier == 'quick':
         blocks, total = control.enum_space(KQUICK)
-        return {'n': 9000 + total, 'deadline': 50, 'floor': {'distinct_nontrivial': 800, 'cuts_executed': 2000},
+        return {'n': 9000 + total, 'deadline': 150, 'floor': {'distinct_nontrivial': 800, 'cuts_executed': 2000},
                 'exh': total}
     blocks, total = control.enum_space(KTHOROUGH)
     return {'n': 150000 + total, 'deadline': 560, 'floor': {'distinct_nontrivial': 20000, 'cuts_executed': 50000},
